@@ -25,7 +25,7 @@ RULE = ("Hypothesis draws a conversion program over an opaque wrapper class W (a
         "dataclass, a second converted class W2 for chains), some wrapped in catch_value_error and failing on part of their domain; "
         "one serializer g: W -> U (optionally inherited=False); a placement in {registered, dynamic conversion=, field metadata, "
         "default_conversion=}; optionally constraints given from outside the converted type (per-call schema= or field schema: they "
-        "constrain the source data, in deserialize as in the schema); a nesting in {bare, List, Dict values, Optional, Tuple, Union with bool, field of a nested object, Deque (std registered conversion "
+        "constrain the source data, in deserialize as in the schema); a nesting in {bare, List, Dict values, Optional, Tuple, Union with bool, field of a nested object (dataclass or NamedTuple), Deque (std registered conversion "
         "from / to list) and a user generic Collection with registered conversions from / to List}; and "
         "5-9 data (valid data of each source, mutants, atoms).  Oracle = commuting squares evaluated with apischema itself: "
         "deserialize(nest[W], d) accepts iff the element-wise composition 'first S_i accepting d, then f_i' accepts, with equal value "
@@ -78,6 +78,8 @@ def strategy_(draw, tier):
         "chain": chance(draw, 0.2),
         "conv_object": chance(draw, 0.4),
     }
+    if prog["nest"] == "field" and prog["placement"] != "field" and chance(draw, 0.5):
+        prog["holder_nt"] = True  # the nested object is a NamedTuple (an object type that is also a Collection)
     if prog["nest"] == "bare" and prog["placement"] in ("registered", "dynamic", "field") and chance(draw, 0.35):
         # constraints given from outside the converted type (per-call schema= / field schema): they constrain the source data
         prog["outer"] = pick(draw, [{"min": 1}, {"max": 2}, {"max_len": 1}, {"min_items": 2}, {"min": 0, "max_len": 3}])
@@ -240,6 +242,8 @@ def render(p) -> str:
     if p["placement"] == "field":
         outer_md = (" | schema(" + ", ".join(f"{k}={v!r}" for k, v in p["outer"].items()) + ")") if p.get("outer") else ""
         lines += ["@dataclass", "class Holder:", f"    w: {nest_t} = field(metadata=conversion(deserialization=DESER, serialization=G){outer_md})", "    other: int = 0", "ROOT = Holder"]
+    elif p["nest"] == "field" and p.get("holder_nt"):
+        lines += ["class Holder(NamedTuple):", "    w: W", "    other: int = 0", "ROOT = Holder"]
     elif p["nest"] == "field":
         lines += ["@dataclass", "class Holder:", "    w: W", "    other: int = 0", "ROOT = Holder"]
     else:
